@@ -822,7 +822,8 @@ def judge(chk: Check, hc, recs, view, mr, cfg, nontrivial, leftovers=True):
         chk.count('op:' + o['op'] + (':' + o['kind'] if o.get('kind', 'ok') != 'ok' else '')
                   + (':fault' if o.get('fault') is not None else ''))
     # ---- oracle ----
-    orc, orc6 = Oracle(), Oracle(f6=True)
+    # the F6 formula (holes) is only on offer while the tree shows F6
+    orc, orc6 = Oracle(), Oracle(f6=not cfg['F6'])
     found = []              # (op index, expected, signature)
     wants = []
     cut = None              # the model is compared up to and including this operation
